@@ -282,6 +282,8 @@ class SrcGen:
         saved = getattr(self, "sig_taken", set())
         self.sig_taken = set()
         np_ = r.choice([0, 1, 1, 2, 2, 3, 4, maxp]) if not inner else r.choice([0, 1, 1, 2])
+        if not inner and r.random() < 0.03:
+            np_ = r.randrange(17, 25)      # a wide method: more variables than any small pre-sized buffer holds
         nr = r.choice([0, 1, 1, 2, 3]) if not inner else r.choice([0, 0, 1, 2])
         named = r.random() < (0.55 if not inner else 0.3)
         ptypes = [self.typ(depth, tparams=tparams) for _ in range(np_)]
